@@ -28,6 +28,38 @@ fn image(len: usize, seed: u64) -> Vec<u8> {
         }
         i += 1;
     }
+    // half of the images also hold stretches a writer might treat specially: whole records of 0xFF
+    // (erased flash), of 0x00 (padding), of ':' / CR / LF, at record-aligned offsets, around every
+    // 64 KiB boundary, at the very start and the very end
+    let mode = fw::mix64(seed ^ 0x5EED, len as u64) % 8;
+    if mode >= 4 && len >= 16 {
+        let fill = [0xFFu8, 0x00, b':', 0x0D, 0x0A, 0xFF, 0x00, 0xFF];
+        let records = len / 16;
+        let mut blocks: Vec<usize> = vec![0, records.saturating_sub(1)];
+        let mut b = 4096usize; // record index of 64 KiB
+        while b <= records {
+            blocks.extend([b.saturating_sub(1), b, b + 1]);
+            b += 4096;
+        }
+        for k in 0..(records / 3).min(400) {
+            blocks.push((fw::mix64(seed, 0xB10C + k as u64) % records.max(1) as u64) as usize);
+        }
+        for (k, r) in blocks.iter().enumerate() {
+            let f = if mode == 7 { 0xFF } else { fill[(k + mode as usize) % fill.len()] };
+            let run = 1 + (fw::mix64(seed, 0xF111 + k as u64) % 3) as usize;
+            for j in r * 16..((r + run) * 16).min(len) {
+                v[j] = f;
+            }
+        }
+        if mode == 6 {
+            // one byte that is not 0xFF in an otherwise erased image
+            for x in v.iter_mut() {
+                *x = 0xFF;
+            }
+            let at = (fw::mix64(seed, 0xA7) % len as u64) as usize;
+            v[at] = 0x12;
+        }
+    }
     v
 }
 
